@@ -13,7 +13,9 @@ import json, os, copy
 from common import *
 
 K_OPT = "rejected-set-on-unset-option-stores-default"
-K_RT = "runtime-settings-text-form"
+K_RT_A = "runtime-printed-text-rejected"
+K_RT_B = "runtime-set-changes-other-options"
+K_RT_C = "runtime-size-display-truncated"
 
 
 def decode(meta, e):
@@ -54,7 +56,7 @@ def run(ctx):
             break
     if len(corrupt) != 3:
         raise ToolError("no run suitable for the binding self-test")
-    write_ndjson(ctx.path("trace.ndjson"), [{k: v for k, v in r.items() if k in ("keys", "over", "ev")} for r in runs + corrupt])
+    write_ndjson(ctx.path("trace.ndjson"), [{k: v for k, v in r.items() if k in ("keys", "over", "raw", "ev")} for r in runs + corrupt])
     r = tlc_trace_validate(ctx, "text/ConfigTrace", "text/ConfigTrace.cfg", ctx.path("trace.ndjson"), timeout=3000)
     if not r.ok:
         sys.stderr.write(r.out[-4000:])
@@ -67,13 +69,15 @@ def run(ctx):
             raise ToolError(f"binding self-test: corrupted event {cr['expect']} of corrupted run {n} was not rejected")
     # 3. verdicts on the real runs
     rejected = accepted = 0
-    known = {K_OPT: 0, K_RT: 0}
+    known = {K_OPT: 0, K_RT_A: 0, K_RT_B: 0, K_RT_C: 0}
     samples = []
     for ri, run_ in enumerate(runs):
         v = verdicts[ri + 1]
         if v["events"] != len(run_["ev"]):
             raise ToolError("verdict/run length mismatch")
         cfg = {i + 1: t for i, t in enumerate(run_["ev"][0]["cfg"])}
+        seen = {(k, t) for k, t in cfg.items() if t != 0}
+        over = {o["k"]: set(o["js"]) for o in run_["over"] + run_["raw"]}
         rej = set(v["rejected"])
         for i, e in enumerate(run_["ev"], start=1):
             if e["op"] == "init":
@@ -83,8 +87,14 @@ def run(ctx):
                 keyname = meta["keys"][e["k"] - 1]
                 changed_names = [meta["keys"][j - 1] for j, _ in e.get("ch", [])]
                 key = None
-                if keyname.startswith("datafusion.runtime.") or (run_["fe"] == "sql" and any(n.startswith("datafusion.runtime.") or n.startswith("raw:") for n in changed_names)):
-                    key = K_RT
+                if keyname.startswith("datafusion.runtime.") and run_["fe"] == "sql" and e["op"] == "set":
+                    chk = {j for j, _ in e["ch"]}
+                    if not e["ok"] and not e["ch"] and (e["k"], e["t"]) in seen:
+                        key = K_RT_A          # a text the configuration printed for this variable is rejected
+                    elif e["ok"] and not e["inval"] and (chk - {e["k"]} - over.get(e["k"], set())):
+                        key = K_RT_B          # other options change
+                    elif e["ok"] and e["t"] == cfg.get(e["k"]) and chk and chk <= over.get(e["k"], set()):
+                        key = K_RT_C          # Set(k, Show(k)) changes the real (raw) limit
                 elif e["op"] == "set" and not e["ok"] and cfg.get(e["k"]) == 0 and [j for j, _ in e["ch"]] == [e["k"]] and meta["classes"][e["k"] - 1] == "Opt":
                     key = K_OPT
                 hist = [decode(meta, x) for x in run_["ev"][max(1, i - 6):i]]
@@ -102,8 +112,12 @@ def run(ctx):
             if e["op"] == "set":
                 for j, t in e["ch"]:
                     cfg[j] = t
+                    if t != 0:
+                        seen.add((j, t))
             elif e["op"] == "show":
                 cfg[e["k"]] = e["t"]
+                if e["t"] != 0:
+                    seen.add((e["k"], e["t"]))
     write_evidence(ctx, "model_checking", {
         "states": r0.distinct + r.distinct, "transitions": r0.generated + r.generated,
         "traces_validated_against_impl": nreal,
@@ -119,6 +133,7 @@ def run(ctx):
         "validity of a text is decided only where uncontroversial: a text the configuration printed for the key is valid and a fixpoint; canonical spellings (true/false, plain decimal numerals except 0, exact K/M/G sizes) print back verbatim if accepted; a fixed pool of malformed texts per class must be rejected",
         "documented override: datafusion.optimizer.enable_dynamic_filter_pushdown also writes the topk/join/aggregate flags (Over in ConfigTrace.tla)",
         "a key's class is inferred from the text of its default value in entries(); options whose default prints nothing (None) are given candidate texts of every class",
+        "datafusion.runtime.temp_directory is not observed (it shows lazily created random spill directories, not a settable text form)",
         "large integers are only driven through ConfigOptions/SessionConfig (not through a live SQL session, where they would size real allocations)",
         "SessionConfig::set_str cannot report failure; its verdict falls back to options_mut().set",
     ])
